@@ -194,8 +194,32 @@ package gohlslib
 //@   noframe
 //@   nocallpre
 //@   requires held(s.mutex)
+//@   requires segsOK(s.segments) && (s.nextSegment != nil ==> (ref(s.nextSegment) != 0 && (isF(s.nextSegment) || isM(s.nextSegment))))
 //@   modifies s.closed, muxerPart.endDTS, muxerTrack.fmp4Samples, muxerSegmentFMP4.endDTS, muxerSegmentMPEGTS.endDTS, muxerSegmentMPEGTS.bw
+//@   loop 1 invariant ri < len(s.segments) && segClosed() == ri + 1 && s.segments == old(s.segments) && s.nextSegment == old(s.nextSegment)
 //@   ensures s.closed
+//@   ensures [C07] segClosed() == len(s.segments) + ite(old(s.nextSegment) != nil, 1, 0)
+//@ end
+
+// every segment releases its storage (the disk file is removed) exactly once when closed
+//@ pred segClosed() int := calls("muxerSegmentFMP4.close") + calls("muxerSegmentMPEGTS.close") + calls("muxerGap.close")
+
+//@ func muxerSegmentFMP4.close
+//@   props C07
+//@   role writer
+//@   requires s.storage != nil && ref(s.storage) != 0
+//@   ensures calls("storage.fileDisk.Remove") + calls("storage.fileRAM.Remove") == 1
+//@ end
+
+//@ func muxerSegmentMPEGTS.close
+//@   props C07
+//@   role writer
+//@   requires s.storage != nil && ref(s.storage) != 0
+//@   ensures calls("storage.fileDisk.Remove") + calls("storage.fileRAM.Remove") == 1
+//@ end
+
+//@ func muxerGap.close
+//@   props C07
 //@ end
 
 //@ func Muxer.Close
@@ -203,6 +227,8 @@ package gohlslib
 //@   entry
 //@   role writer
 //@   requires nolocks() && muxerLinks(m)
+//@   requires forall(i, (0 <= i && i < len(m.streams)) ==> (m.streams[i] != nil && segsOK(m.streams[i].segments)
+//@        && (m.streams[i].nextSegment != nil ==> (ref(m.streams[i].nextSegment) != 0 && (isF(m.streams[i].nextSegment) || isM(m.streams[i].nextSegment))))))
 //@   modifies m.closed, muxerStream.closed, muxerPart.endDTS, muxerTrack.fmp4Samples, muxerSegmentFMP4.endDTS, muxerSegmentMPEGTS.endDTS, muxerSegmentMPEGTS.bw
 //@   modifies storage.fileRAM.finalized, storage.fileRAM.finalSize, storage.fileDisk.finalSize, storage.fileDisk.f, storage.partDisk.size, storage.partDisk.buffer
 //@   ensures m.closed
@@ -698,6 +724,11 @@ package gohlslib
 //@   ensures (result == nil && track.isLeading && calls("muxerPart.writeSample") == 1 && s.variant == MuxerVariantLowLatency
 //@        && !(randomAccess && (paramsChanged || segElapsed(s, track, sample, old(track.fmp4NextSample), old(track.stream.nextSegment)) >= s.segmentMinDuration))
 //@        && partElapsed(s, track, sample, old(track.fmp4NextSample), old(track.stream.nextSegment), old(track.stream.nextPart)) >= s.fmp4AdjustedPartDuration) ==> calls("Muxer.rotateParts") == 1
+//@   ensures [C19] (result == nil && calls("Muxer.rotateSegments") == 1 && paramsChanged) ==> (!s.fmp4FreezeAdjustedPartDuration && s.fmp4SampleDurations != nil && forall(k, !has(s.fmp4SampleDurations, k)))
+//@   ensures [C19] (result == nil && calls("Muxer.rotateSegments") == 1 && !paramsChanged) ==> s.fmp4FreezeAdjustedPartDuration
+//@   ensures [C19] calls("Muxer.rotateSegments") == 0 ==> s.fmp4FreezeAdjustedPartDuration == old(s.fmp4FreezeAdjustedPartDuration)
+//@   ensures [C19] calls("muxerSegmenter.fmp4AdjustPartDuration") == 0 ==> s.fmp4AdjustedPartDuration == old(s.fmp4AdjustedPartDuration)
+//@   ensures [C19] (s.fmp4AdjustedPartDuration != old(s.fmp4AdjustedPartDuration)) ==> (track.isLeading && s.variant == MuxerVariantLowLatency && !old(s.fmp4FreezeAdjustedPartDuration))
 //@ end
 
 // media time between the start of the open segment / part and the DTS of the sample now held
@@ -934,6 +965,7 @@ package gohlslib
 //@   nocallpre
 //@   requires d.firstPlaylist != nil && pl != nil && d.segmentQueue != nil && ctx != nil
 //@   requires forall(i, (0 <= i && i < len(pl.Segments)) ==> pl.Segments[i] != nil)
+//@   requires forall(i, (0 <= i && i < len(pl.Segments)) ==> forall(j, (i < j && j < len(pl.Segments)) ==> pl.Segments[i] != pl.Segments[j]))
 //@   requires pl.MediaSequence >= 0 && pl.MediaSequence < 2147483648 && (d.curSegmentID != nil ==> (*d.curSegmentID >= 0 && *d.curSegmentID < 4611686018427387904))
 //@   modifies d.curSegmentID, clientSegmentQueue.queue, clientSegmentQueue.didPush
 //@   ensures calls("clientStreamDownloader.downloadSegment") <= 1
@@ -950,6 +982,35 @@ package gohlslib
 //@   ensures (old(d.curSegmentID) != nil && calls("clientStreamDownloader.downloadSegment") == 0) ==> (result != nil && d.curSegmentID == old(d.curSegmentID) && *d.curSegmentID == old(*d.curSegmentID))
 //@   ensures calls("clientStreamDownloader.downloadSegment") == 0 ==> calls("clientSegmentQueue.push") == 0
 //@   ensures result == nil ==> calls("clientSegmentQueue.push") == 1
+//@   ensures calls("clientSegmentQueue.push") <= 2
+//@   ensures calls("clientSegmentQueue.push") == 2 ==> (pl.Endlist && callarg("clientSegmentQueue.push", 1, 1) == nil && fetchedIdx(d, pl) == len(pl.Segments) - 1)
+//@   ensures (calls("clientSegmentQueue.push") >= 1 && pl.Endlist && fetchedIdx(d, pl) == len(pl.Segments) - 1) ==> calls("clientSegmentQueue.push") == 2
+//@   ensures calls("clientSegmentQueue.push") >= 1 ==> callarg("clientSegmentQueue.push", 0, 1) != nil
+//@ end
+
+// index (in this playlist) of the segment this call fetches: first call: 0 (VOD) or third from last (live); later: the next media sequence number
+//@ pred fetchedIdx(d *clientStreamDownloader, pl *playlist.Media) int := ite(old(d.curSegmentID) == nil, ite(isVOD(d.firstPlaylist), 0, len(pl.Segments) - 3), nextIdx(d, pl))
+
+// C11 / C20: the traditional (non Low-Latency) downloader alternates: fetch one segment, wait until at most one
+// segment is still queued, re-fetch the playlist. With the one it fetches next, at most two segments wait.
+//@ func clientStreamDownloader.runTraditional
+//@   props C11 C20
+//@   nosafety
+//@   noframe
+//@   nocallpre
+//@   loop 1 invariant calls("clientStreamDownloader.fillSegmentQueue") == calls("clientSegmentQueue.waitUntilSizeIsBelow") && calls("clientSegmentQueue.waitUntilSizeIsBelow") == calls("clientStreamDownloader.downloadPlaylist")
+//@   atcall clientSegmentQueue.waitUntilSizeIsBelow arg2 + 1 <= 2
+//@   atcall clientSegmentQueue.waitUntilSizeIsBelow calls("clientStreamDownloader.fillSegmentQueue") == calls("clientSegmentQueue.waitUntilSizeIsBelow") + 1
+//@   atcall clientStreamDownloader.downloadPlaylist calls("clientSegmentQueue.waitUntilSizeIsBelow") == calls("clientStreamDownloader.downloadPlaylist") + 1 && !arg2
+//@   atcall clientStreamDownloader.fillSegmentQueue calls("clientStreamDownloader.fillSegmentQueue") == calls("clientStreamDownloader.downloadPlaylist")
+//@   ensures result != nil
+//@ end
+
+//@ func clientStreamDownloader.downloadPlaylist
+//@   props C11
+//@   nosafety
+//@   noframe
+//@   nocallpre
 //@ end
 
 //@ pred isVOD(pl *playlist.Media) := pl.PlaylistType != nil && *pl.PlaylistType == "VOD"
@@ -973,7 +1034,7 @@ package gohlslib
 //@ pred rotPos(m *Muxer, i int) int := ite(i < lidx(m), i + 1, ite(i == lidx(m), 0, i))
 
 //@ func Muxer.rotateSegmentsInner
-//@   props C02 C04 C06 C08
+//@   props C02 C03 C04 C06 C08
 //@   role writer
 //@   nosafety
 //@   nocallpre
@@ -985,6 +1046,8 @@ package gohlslib
 //@   ensures result == nil ==> forall(i, (0 <= i && i < len(m.streams)) ==> (callarg("muxerStream.rotateSegments", rotPos(m, i), 0) == m.streams[i]
 //@        && callarg("muxerStream.rotateSegments", rotPos(m, i), 1) == nextDTS && callarg("muxerStream.rotateSegments", rotPos(m, i), 2) == nextNTP
 //@        && callarg("muxerStream.rotateSegments", rotPos(m, i), 3) == force))
+//@   ensures [C03] result == nil ==> forall(i, (0 <= i && i < len(m.streams)) ==> (m.streams[i].targetDuration == m.leadingStream.targetDuration && m.streams[i].partTargetDuration == m.leadingStream.partTargetDuration))
+//@   loop 1 invariant forall(i, (0 <= i && i <= ri) ==> (m.streams[i].targetDuration == m.leadingStream.targetDuration && m.streams[i].partTargetDuration == m.leadingStream.partTargetDuration))
 //@   loop 1 invariant ri < len(m.streams) && streamsOK(m) && oneLeader(m) && calls("muxerStream.rotateSegments") == 1 + (ri + 1) - ite(lidx(m) <= ri, 1, 0)
 //@   loop 1 invariant forall(i, (0 <= i && i < len(m.streams) && (i <= ri || i == lidx(m))) ==> (callarg("muxerStream.rotateSegments", rotPos(m, i), 0) == m.streams[i]
 //@        && callarg("muxerStream.rotateSegments", rotPos(m, i), 1) == nextDTS && callarg("muxerStream.rotateSegments", rotPos(m, i), 2) == nextNTP
@@ -1003,6 +1066,8 @@ package gohlslib
 //@   ensures result == nil ==> calls("muxerStream.rotateParts") == len(m.streams)
 //@   ensures result == nil ==> forall(i, (0 <= i && i < len(m.streams)) ==> (callarg("muxerStream.rotateParts", rotPos(m, i), 0) == m.streams[i]
 //@        && callarg("muxerStream.rotateParts", rotPos(m, i), 1) == nextDTS && callarg("muxerStream.rotateParts", rotPos(m, i), 2) == 1))
+//@   ensures [C03] result == nil ==> forall(i, (0 <= i && i < len(m.streams)) ==> m.streams[i].partTargetDuration == m.leadingStream.partTargetDuration)
+//@   loop 1 invariant forall(i, (0 <= i && i <= ri) ==> m.streams[i].partTargetDuration == m.leadingStream.partTargetDuration)
 //@   loop 1 invariant ri < len(m.streams) && streamsOK(m) && oneLeader(m) && calls("muxerStream.rotateParts") == 1 + (ri + 1) - ite(lidx(m) <= ri, 1, 0)
 //@   loop 1 invariant forall(i, (0 <= i && i < len(m.streams) && (i <= ri || i == lidx(m))) ==> (callarg("muxerStream.rotateParts", rotPos(m, i), 0) == m.streams[i]
 //@        && callarg("muxerStream.rotateParts", rotPos(m, i), 1) == nextDTS && callarg("muxerStream.rotateParts", rotPos(m, i), 2) == 1))
